@@ -13,6 +13,16 @@ CLAIMED = {
         "design": "DESIGN.md §5 C05",
     },
 }
+CLAIMED["C11"] = {
+    "text": "Coq theorems generic in the sentence heuristic, minimum lengths, width and per-sentence wrapper: sentences partition the "
+            "words and end only at sentence ends; every output line is a wrapped line of one sentence possibly prefixed by merged short "
+            "lines (<min length); prefix stability, resynchronisation and edit locality of the sentence loop. Model tied by "
+            "correspondence (split_sentences_regex, line_wrap_by_sentence, SENTENCE_END_RE engine validation); break classification and "
+            "edit locality are also evaluated on the implementation for generated edit pairs.",
+    "note": "Known finding D-12 (merge accounting) is listed in known_findings.json and suppressed only when the implementation still "
+            "agrees with the pinned model on that input. Regex engine agreement with the `regex` module is tested, not proved.",
+    "design": "DESIGN.md §5 C11",
+}
 PENDING_REASON = "check not built yet in this revision (work in progress; see DESIGN.md §7 staging)"
 
 def main():
